@@ -377,11 +377,12 @@ def oracle_tables(stream: bytes) -> tuple[list[tuple[str, int]], dict[str, int],
     for line in text.splitlines():
         for i, ch in enumerate(line):
             if ch == ":":
-                v = line[i + 1:].lstrip()
-                try:
-                    ints[v] = int(v)
-                except ValueError:
-                    pass
+                raw = line[i + 1:]
+                for v in {raw, raw[1:] if raw.startswith(" ") else raw, raw.lstrip()}:
+                    try:
+                        ints[v] = int(v)
+                    except ValueError:
+                        pass
         s = line.strip()
         if s:
             try:
@@ -610,7 +611,7 @@ def main(chk: Check, replay: dict | None = None) -> int:
             chk.cov["chunk_shape_differences"] = {"cases": len(shape), "first": first["input"]}
             chk.say(f"[C18] note: iter_bytes/aiter_text items are cut differently from the model's on {len(shape)} case(s) "
                     f"(not part of the property; concatenations are checked); smallest: {json.dumps(first['input'])[:200]}")
-    chk.decide(cases, dcodes, {1: "F18a", 2: "F18b"},
+    chk.decide(cases, dcodes, {1: "F18a"},
                "Corr.C18.run: model(chunks) = real helpers over httpx.Response(content=<async chunk iterator>)")
     if codes is not None:
         diag = {}
